@@ -66,6 +66,8 @@ func runFamily(fam string, w *bufio.Writer, r *rng, id, size int, opt string) bo
 			sc := genHopeless(r, cfgGeneral)
 			sc.multiConv(r)
 			emitCall(w, sc, id, 2, "call", "fam=hopeless")
+		case "twin":
+			emitCall(w, genTwin(r, cfgGeneral), id, 3, "call", "fam=twin")
 		case "affinity":
 			sc, extra := genAffinity(r, cfgGeneral)
 			emitCall(w, sc, id, 10, "call", extra)
